@@ -5,11 +5,16 @@ subprocess started by jobmap itself) over 3..6-item MoleculeLibrary / ConformerL
 outcome streams (succeed / fail / fail after writing the return file / omit the return file, per attempt; jobs of 1..3
 commands, named or unnamed, with the failure at each position and the return file written before / by / after the
 failing command), changes of the job argument and of strict_hash between runs, pre-populated destinations, destination-only keys, damaged cache
-files, single and vectorised jobs.  After every event the destination, the cache directory and the execution counters
-(files appended to by the scripted commands) are observed and replayed in the model inside Coq (check_jcase); an oracle
-written from the property text judges every run on the observations alone.
+files, single and vectorised jobs.  Round 3: commands KILLED BY A SIGNAL before / after they wrote the return file (negative
+exit code), the RUNNER process dying before it writes its output (killed while a command runs / a command's program does
+not exist) at every command position, jobs with return_files a tuple / a list / None (result taken from the recorded
+stdout), and WHO filled the destination through WHICH handle (the handle given to jobmap, another handle, another
+process; jobmap handed the same handle again or a fresh one).  After every event the destination (read through an
+independent read-only handle), the cache directory and the execution counters (files appended to by the scripted
+commands) are observed and replayed in the model inside Coq (check_jcase); an oracle written from the property text
+judges every run -- per item and per run: executed exactly when it had to be -- on the observations alone.
 """
-import os, sys, json, subprocess, shutil, traceback
+import os, sys, json, subprocess, shutil, traceback, time
 
 if __name__ != "__main__":
     import vlib
@@ -20,7 +25,10 @@ HEADER = ("From Coq Require Import List ZArith NArith String.\nImport ListNotati
 ITEM_SH = r'''#!/bin/sh
 # $1 = item name, $2 = job argument, $3 = index of this command in the job's command list, $4 = number of commands.
 # What the n-th execution of the item does comes from line n+1 of the plan file (one '/'-separated step per command:
-# s = succeed, w = write the return file and succeed, f<k> = exit k, g<k> = write the return file then exit k),
+# s = succeed, w = write the return file and succeed, f<k> = exit k, g<k> = write the return file then exit k,
+# k<sig> = die from signal sig, h<sig> = write the return file, then die from signal sig,
+# x = the RUNNER (parent process) is killed while this command runs,
+# m = the program of this command does not exist (arranged by the command before it)),
 # not from the command text.  An execution is counted by its first command.
 D="@DIR@"
 i="${3:-0}"; m="${4:-1}"
@@ -34,10 +42,17 @@ case "$a" in
 esac
 echo "run:$1:$a:$n"
 o=$(sed -n "$((n+1))p" "$D/plan/$1" 2>/dev/null)
-if [ -n "$o" ]; then s=$(echo "$o" | cut -d/ -f$((i+1))); elif [ $((i+1)) -eq "$m" ]; then s=w; else s=s; fi
+nx=""
+if [ -n "$o" ]; then s=$(echo "$o/" | cut -d/ -f$((i+1))); nx=$(echo "$o/" | cut -d/ -f$((i+2))); elif [ $((i+1)) -eq "$m" ]; then s=w; else s=s; fi
+if [ -d "$D/prog" ]; then
+  if [ "$nx" = "m" ]; then rm -f "$D/prog/$1"; else ln -sf /bin/sh "$D/prog/$1"; fi
+fi
 case "$s" in
   f*) exit ${s#f};;
   g*) echo "ok:$1:$a:$n" > o.txt; exit ${s#g};;
+  k*) kill -${s#k} $$; sleep 20;;
+  h*) echo "ok:$1:$a:$n" > o.txt; kill -${s#h} $$; sleep 20;;
+  x) kill -9 $PPID; exit 0;;
   w) echo "ok:$1:$a:$n" > o.txt;;
   *) ;;
 esac
@@ -47,43 +62,61 @@ esac
 # ------------------------------------------------------------------ the commands of one execution
 def steps_of(tok, shape):
     """One step per command of the job (shape: one letter per command, n = named, u = unnamed).  A plan entry is
-    either a '/'-separated step list, or one of the whole-execution outcomes S / F<k> / G<k> / O, which is the last
-    command's doing (the commands before it succeed and write nothing)."""
+    either a '/'-separated step list, or one of the whole-execution outcomes S / F<k> / G<k> / O / K<sig> / H<sig> / X,
+    which is the last command's doing (the commands before it succeed and write nothing)."""
     m = len(shape)
     if "/" in tok or tok[0].islower():
         st = tok.split("/")
         assert len(st) == m, (tok, shape)
         return st
-    last = {"S": "w", "O": "s"}.get(tok) or ("f" if tok[0] == "F" else "g") + tok[1:]
+    last = {"S": "w", "O": "s", "X": "x"}.get(tok) or {"F": "f", "G": "g", "K": "k", "H": "h"}[tok[0]] + tok[1:]
     return ["s"] * (m - 1) + [last]
 
 
-def outcome_of(steps):
-    """(exit code to be recorded, return file present, index of the failing command or None) by the property text's
-    reading of an execution: commands run in order, the first failing one ends it."""
-    have = False
+CRASH = "runner-died"
+
+
+def outcome_of(steps, rf="tuple"):
+    """(exit code to be recorded -- negative: the signal that killed the command; CRASH: the runner died, nothing is
+    recorded --, result carrier present, index of the command that ended it or None) by the property text's reading of an
+    execution: commands run in order, the first one that does not succeed ends it.  The result carrier is the return file;
+    for a job with return_files=None it is the recorded stdout of the first (named) command, which always exists."""
+    have = rf == "none"
     for i, st in enumerate(steps):
-        if st[0] in "wg":
+        if st[0] in "wgh":
             have = True
         if st[0] in "fg":
             return int(st[1:]), have, i
+        if st[0] in "kh":
+            return -int(st[1:]), have, i
+        if st[0] in "xm":
+            return CRASH, have, i
     return (0 if have else 1), have, None
 
 
-def kind_of(steps, shape):
-    code, have, i = outcome_of(steps)
+def kind_of(steps, shape, rf="tuple"):
+    code, have, i = outcome_of(steps, rf)
     if i is None:
         return "success" if have else "omitted-return-file"
-    w = [j for j, st in enumerate(steps) if st[0] in "wg"]
+    w = [j for j, st in enumerate(steps) if st[0] in "wgh"]
     where = "no-file" if not w else ("file-before" if w[0] < i else "file-by" if w[0] == i else "file-after")
-    return f"failed-command:{'unnamed' if shape[i] == 'u' else 'named'}-{'last' if i == len(shape) - 1 else 'nonlast'}:{where}"
+    what = {"f": "failed-command", "g": "failed-command", "k": "killed-command", "h": "killed-command",
+            "x": "runner-killed-at-command", "m": "program-missing-command"}[steps[i][0]]
+    return f"{what}:{'unnamed' if shape[i] == 'u' else 'named'}-{'last' if i == len(shape) - 1 else 'nonlast'}:{where}"
 
 
-def rand_steps(rng, m):
-    p = rng.choice([None] + list(range(m)) * 2)          # failing command
+def rand_steps(rng, m, prog=False):
+    p = rng.choice([None] + list(range(m)) * 2)          # command that does not succeed
     q = rng.choice([None] + list(range(m)) * 3)          # command that writes the return file
+    how = rng.choice(["exit"] * 4 + ["signal"] * 2 + ["runner"] + (["missing"] * 2 if prog else []))
+    if how == "missing" and not p:
+        how = "runner"
     k = rng.randint(1, 9)
-    return "/".join((("g" if q == i else "f") + str(k)) if p == i else ("w" if q == i else "s") for i in range(m))
+    sig = rng.choice([9, 15, 9, 6])
+
+    def bad(wr):
+        return {"exit": ("g" if wr else "f") + str(k), "signal": ("h" if wr else "k") + str(sig), "runner": "x", "missing": "m"}[how]
+    return "/".join(bad(q == i) if p == i else ("w" if q == i else "s") for i in range(m))
 
 
 SHAPES = ["n"] * 9 + ["u", "nn", "un", "un", "nu", "uu", "unn", "nun", "uun", "nnu"]
@@ -94,7 +127,8 @@ def names_of(key, L, vec):
     return [f"{key}.{i}" for i in range(L)] if vec else [key]
 
 
-PLAN_MENU = [[], [], [], ["F3"], ["F3", "F2"], ["O"], ["O", "S", "F1"], ["G4"], ["F1", "O"], ["F2", "F2", "F2", "F2", "F2"], ["S", "F9"]]
+PLAN_MENU = [[], [], [], ["F3"], ["F3", "F2"], ["O"], ["O", "S", "F1"], ["G4"], ["F1", "O"], ["F2", "F2", "F2", "F2", "F2"], ["S", "F9"],
+             ["H9"], ["K15", "H9"], ["S", "X"], ["X"], ["S", "H15"], ["G2", "X", "K9"]]
 
 
 def gen_sequence(rng, k):
@@ -104,11 +138,15 @@ def gen_sequence(rng, k):
     src = [(key, rng.randint(1, 3) if vec else 1) for key in keys]
     plans = {}
     shape = rng.choice(SHAPES)
+    rf = rng.choice(["tuple"] * 5 + ["list"] + ["none"] * 3)
+    if rf == "none" and shape[0] != "n":
+        shape = "n" + shape[1:]                           # the result is the recorded stdout of the first command
+    prog = len(shape) > 1 and rng.random() < 0.4
     for key, L in src:
         for nm in names_of(key, L, vec):
             plans[nm] = list(rng.choice(PLAN_MENU))
             if len(shape) > 1 and rng.random() < 0.6:
-                plans[nm] = [rand_steps(rng, len(shape)) for _ in range(rng.randint(1, 3))]
+                plans[nm] = [rand_steps(rng, len(shape), prog) for _ in range(rng.randint(1, 3))]
     init = {}
     for key, L in src:
         if rng.random() < 0.2:
@@ -125,12 +163,16 @@ def gen_sequence(rng, k):
             key, L = rng.choice(src)
             events.append(["corrupt", rng.choice(names_of(key, L, vec))])
         if rng.random() < 0.25:
-            events.append(["put", next(zs), [["put", 7]]])
+            events.append(["put", next(zs), [["put", 7]], rng.choice(["same", "same", "other", "other", "process"])])
+        if r and rng.random() < 0.2:                      # somebody else computes an item that is still missing
+            key, L = rng.choice(src)
+            events.append(["put", key, [["put", 20 + i] for i in range(L if vec else 1)], rng.choice(["same", "other", "other", "process"])])
         if r and rng.random() < 0.3:
             events.append(["newdst"])
-        events.append(["run", arg, rng.random() < 0.85, vec])
+        events.append(["run", arg, rng.random() < 0.85, vec, rng.choice(["same", "same", "fresh"])])
     return {"vec": vec, "src": src, "plans": plans, "init": init, "events": events, "note": f"random{k}",
-            "carrier": ("cmd", "file", "env")[k % 3], "shape": shape}
+            "carrier": ("cmd", "file", "env")[k % 3], "shape": shape, "rf": rf, "prog": prog,
+            "init_via": rng.choice(["same", "other", "other", "process"]) if init else "same"}
 
 
 def directed_sequences():
@@ -175,11 +217,11 @@ def directed_sequences():
     # jobs of SEVERAL commands, named (recorded) or not: the failing command at every position x the return file written
     # before / by / after it / never; an item counts as succeeded only if every command did.  Second attempts fail at
     # another position for some items; third run: nothing left to do or still failing.
-    def combos(m, which=None):
+    def combos(m, which=None, bad=lambda wr, i: ("g" if wr else "f") + str(2 + i)):
         out = []
         for p in [None] + list(range(m)):
             for q in [None] + list(range(m)):
-                out.append("/".join((("g" if q == i else "f") + str(2 + i)) if p == i else ("w" if q == i else "s") for i in range(m)))
+                out.append("/".join(bad(q == i, i) if p == i else ("w" if q == i else "s") for i in range(m)))
         return out if which is None else [out[i] for i in which]
     for shape, which in (("un", None), ("nu", None), ("uu", (1, 3, 5, 6, 8)), ("nun", (1, 4, 6, 9, 10, 11, 14))):
         cs = combos(len(shape), which)
@@ -202,10 +244,93 @@ def directed_sequences():
               "plans": {"a": ["f3/w", "f3/w"], "b": ["w/f2"], "c": ["g5/s"]},
               "events": [["run", "A", True, False], ["run", "B", True, False], ["run", "A", False, False], ["newdst"], ["run", "A", True, False]],
               "note": "commands un: failed command + argument change [file]"})
+    # ---------------------------------------------------------------- round 3
+    R = lambda arg, how="same", strict=True, vec=False: ["run", arg, strict, vec, how]
+    # WHO filled the destination and THROUGH WHICH HANDLE jobmap gets it: an earlier session (another handle / another
+    # process) and a fresh handle that has never been read; another handle / process storing items between two runs
+    # that use the same handle.  Items already there are not executed again, nothing there is touched.
+    S.append({"vec": False, "src": [("a", 1), ("b", 1), ("c", 1), ("d", 1)], "plans": {"c": ["F3"]}, "init_via": "other",
+              "init": {"a": [["pre", 1]], "b": [["pre", 2]], "zz": [["pre", 9]]},
+              "events": [R("A", "fresh"), R("A", "same"), R("A", "fresh")], "note": "destination filled through another handle; fresh handle"})
+    S.append({"vec": True, "src": [("a", 2), ("b", 1), ("c", 2)], "plans": {"c.1": ["F2"]}, "init_via": "process",
+              "init": {"a": [["pre", 1], ["pre", 2]], "zz": [["pre", 9]]},
+              "events": [R("A", "fresh", vec=True), ["put", "c", [["put", 7], ["put", 8]], "other"], R("A", "same", vec=True), R("A", "fresh", vec=True)],
+              "note": "vectorised: destination filled by another process; fresh handle; a missing item stored through another handle"})
+    S.append({"vec": False, "src": [("a", 1), ("b", 1), ("c", 1)], "plans": {"b": ["F2", "F2"], "c": ["F2"]}, "init": {},
+              "events": [R("A"), ["put", "b", [["put", 5]], "process"], R("A"), ["put", "z7", [["put", 1]], "other"], ["put", "c", [["put", 6]], "other"], R("B")],
+              "note": "another process / handle stores failed items between runs; same handle"})
+    # commands KILLED BY A SIGNAL (negative exit code) before / after they wrote the return file: a failed run
+    S.append({"vec": False, "src": [("a", 1), ("b", 1), ("c", 1), ("d", 1)], "init": {},
+              "plans": {"a": ["H9"], "b": ["K15"], "c": ["H15", "H9"], "d": ["K9", "G3"]},
+              "events": [R("A"), R("A"), R("A")], "note": "killed by a signal before / after writing the return file"})
+    S.append({"vec": True, "src": [("a", 3), ("b", 2), ("c", 1)], "init": {}, "plans": {"a.1": ["H9"], "b.0": ["K9"], "b.1": ["H15", "H15"]},
+              "events": [R("A", vec=True), R("A", vec=True), ["newdst"], R("A", vec=True)], "note": "vectorised: one part killed by a signal"})
+    sg = combos(2, bad=lambda wr, i: ("h" if wr else "k") + str((9, 15)[i]))
+    plans = {f"i{j}": [sg[j]] for j in range(2, 9)}
+    plans["i4"] = plans["i4"] + [sg[7]]
+    S.append({"vec": False, "src": [(f"i{j}", 1) for j in range(2, 9)], "plans": plans, "init": {}, "shape": "un",
+              "events": [R("A"), R("A"), ["newdst"], R("A")], "note": "commands un: killed command position x return-file position"})
+    S.append({"vec": True, "src": [("a", 3), ("b", 3), ("c", 2)], "shape": "nu", "init": {},
+              "plans": {"a.0": [sg[3]], "a.2": [sg[4]], "b.1": [sg[5], sg[7]], "b.2": [sg[6]], "c.0": [sg[7]], "c.1": [sg[8]]},
+              "events": [R("A", vec=True), R("A", vec=True), R("A", vec=True)], "note": "vectorised commands nu: killed command position x return-file position"})
+    # return_files = None (result = recorded stdout) / a list / a tuple: the hash recorded by the runner must be the hash
+    # jobmap computes -- cached successes of the same input are reused (new destination over the same cache, vectorised
+    # rerun after a partial failure), those of another input are not
+    for rf, carrier in (("none", "cmd"), ("list", "cmd"), ("none", "file")):
+        S.append({"vec": False, "src": [("a", 1), ("b", 1), ("c", 1)], "plans": {"c": ["F2"]}, "init": {}, "rf": rf, "carrier": carrier,
+                  "events": [R("A"), ["newdst"], R("A"), ["newdst"], R("B"), ["newdst"], R("A", strict=False)],
+                  "note": f"new destination, same cache [return_files={rf}, {carrier}]"})
+    for rf in ("none", "list"):
+        S.append({"vec": True, "src": [("a", 2), ("b", 3)], "plans": {"b.1": ["F3"], "a.0": ["K9", "F1"]}, "init": {}, "rf": rf,
+                  "events": [R("A", vec=True), R("A", vec=True), R("A", vec=True), ["newdst"], R("A", "fresh", vec=True)],
+                  "note": f"vectorised resume [return_files={rf}]"})
+    S.append({"vec": False, "src": [("a", 1), ("b", 1), ("c", 1), ("d", 1)], "shape": "nn", "rf": "none", "carrier": "env", "init": {},
+              "plans": {"a": ["f3/s", "s/f2"], "b": ["s/k9"], "c": ["k15/s"], "d": ["s/s"]},
+              "events": [R("A"), R("A"), ["newdst"], R("A"), R("B")], "note": "commands nn, return_files=None: failed / killed command [env]"})
+    # strict_hash=False accepts the output of ANY input, but still only a successful one (vectorised: per part)
+    S.append({"vec": True, "src": [("a", 2), ("b", 2), ("c", 1)], "plans": {"a.1": ["F3"], "b.0": ["H9", "G2"]}, "init": {},
+              "events": [R("A", vec=True), R("B", strict=False, vec=True), R("A", "fresh", strict=False, vec=True)],
+              "note": "vectorised: strict_hash=False rerun after a partial failure"})
+    # the RUNNER dies before it writes its output (killed while a command runs; a command's program does not exist):
+    # whatever output of ANOTHER input is in the cache is not the result -- the item is not stored, and is executed again
+    S.append({"vec": False, "src": [("a", 1), ("b", 1), ("c", 1)], "plans": {"a": ["S", "X"], "b": ["S", "X", "X"]}, "init": {},
+              "events": [R("A"), ["newdst"], R("B"), R("B"), R("B")], "note": "runner killed over a successful output of another input"})
+    S.append({"vec": False, "src": [("a", 1), ("b", 1), ("c", 1)], "shape": "nn", "prog": True, "init": {},
+              "plans": {"a": ["s/w", "s/m"], "b": ["s/w", "w/m", "s/m"], "c": ["s/m"]},
+              "events": [R("A"), ["newdst"], R("B"), R("B"), R("A")], "note": "program of a command missing over a successful output of another input"})
+    S.append({"vec": True, "src": [("a", 2), ("b", 2)], "plans": {"a.1": ["S", "X"], "b.0": ["X"]}, "init": {},
+              "events": [R("A", vec=True), ["newdst"], R("B", vec=True), R("B", vec=True)], "note": "vectorised: runner of one part killed"})
+    S.append({"vec": False, "src": [(f"i{j}", 1) for j in range(6)], "shape": "un", "prog": True, "init": {}, "carrier": "file",
+              "plans": {"i0": ["s/w", "x/s"], "i1": ["s/w", "w/x"], "i2": ["w/s", "s/x"], "i3": ["s/w", "s/m"], "i4": ["s/w", "w/m"], "i5": ["s/w"]},
+              "events": [R("A"), ["newdst"], R("B"), R("B")], "note": "commands un: runner dies at each command position [file]"})
+    S.append({"vec": False, "src": [("a", 1), ("b", 1)], "plans": {"a": ["G3", "X"], "b": ["X", "X"]}, "init": {},
+              "events": [R("A"), R("A"), R("A"), R("A", strict=False)], "note": "runner killed over a failed output / no output"})
     return S
 
 
 # ------------------------------------------------------------------ worker: runs sequences on the implementation
+def mkobj(ml, vec, key, L, done):
+    m = ml.Molecule(["C"], coords=[[0, 0, 0]], name=key)
+    if vec:
+        m = ml.ConformerEnsemble(m, n_conformers=L)
+    if done is not None:
+        m.attrib["done"] = [f"ok:{key}:{a}:{n}" for a, n in done]
+    return m
+
+
+def put_main(fn):
+    """another PROCESS stores entries in a library: {"path", "vec", "entries": {key: value}}"""
+    import warnings
+    warnings.filterwarnings("ignore")
+    import molli as ml
+    job = json.load(open(fn))
+    Lib = ml.ConformerLibrary if job["vec"] else ml.MoleculeLibrary
+    lib = Lib(job["path"], readonly=False)
+    with lib.writing():
+        for key, v in job["entries"].items():
+            lib[key] = mkobj(ml, job["vec"], key, len(v), v)
+
+
 def worker_main(jobs_fn, res_fn):
     import warnings, logging
     warnings.filterwarnings("ignore")
@@ -213,39 +338,39 @@ def worker_main(jobs_fn, res_fn):
     from molli.pipeline import Job, JobInput, JobOutput, jobmap
     jobs = json.load(open(jobs_fn))
 
-    def prep(self, m, arg="A", item=None, carrier="cmd", shape="n", **kw):
+    def prep(self, m, arg="A", item=None, carrier="cmd", shape="n", prog=False, **kw):
         # how the job argument reaches the program: in the command text, only as the CONTENT of an input file, or only
         # as the VALUE of an environment variable (the input differs in exactly that place between arguments).
         # shape: one command per letter, n = named (stdout/stderr recorded under c<i>), u = unnamed (name None)
+        # prog: the commands after the first are run through <dir>/prog/<item> (a link to /bin/sh that may be missing)
         idx = getattr(m, "_conf_id", None)
         nm = m.name if idx is None else f"{m.name}.{idx}"
         a = {"file": "@file", "env": "@env"}.get(carrier, arg)
-        cmds = [(f"sh {item} {nm} {a} {i} {len(shape)}", f"c{i}" if ch == "n" else None) for i, ch in enumerate(shape)]
+        exe = lambda i: os.path.join(os.path.dirname(item), "prog", nm) if prog and i else "sh"
+        cmds = [(f"{exe(i)} {item} {nm} {a} {i} {len(shape)}", f"c{i}" if ch == "n" else None) for i, ch in enumerate(shape)]
         if carrier == "file":
             return JobInput(nm, commands=cmds, files={"arg.txt": arg.encode()}, return_files=self.return_files)
         if carrier == "env":
             return JobInput(nm, commands=cmds, envars={"JOBARG": arg}, return_files=self.return_files)
         return JobInput(nm, commands=cmds, return_files=self.return_files)
 
-    def post_payload(self, out, m, **kw):            # needs the return file, like every shipped driver's post
+    def payload(self, out):                          # needs the result carrier, like every shipped driver's post:
+        if self.return_files is None:                # the recorded stdout of the first command / the return file
+            return out.stdouts["c0"].strip()
         return out.files["o.txt"].decode().strip()
+
+    def post_payload(self, out, m, **kw):
+        return payload(self, out)
 
     def post_molecule(self, out, m, **kw):
         mm = ml.Molecule(m)
-        mm.attrib["done"] = [out.files["o.txt"].decode().strip()]
+        mm.attrib["done"] = [payload(self, out)]
         return mm
 
     def reduce_ens(self, outputs, ens, *a, **kw):
         e = ml.ConformerEnsemble(ens)
         e.attrib["done"] = list(outputs)
         return e
-    single = Job(return_files=("o.txt",)).prep(prep)
-    single.post(post_molecule)
-    item_job = Job(return_files=("o.txt",)).prep(prep)
-    item_job.post(post_payload)
-    vectorised = Job.vectorize(item_job)
-    vectorised.reduce(reduce_ens)
-    Driver = type("Driver", (), {"executable": "sh", "nprocs": 1, "envars": None, "j": single, "jv": vectorised})
 
     def parse(s):
         p = str(s).strip().split(":")
@@ -255,55 +380,84 @@ def worker_main(jobs_fn, res_fn):
     for sq in jobs:
         d = sq["dir"]
         res = {"obs": [], "error": None}
+        t_start = time.time()
         try:
             shutil.rmtree(d, ignore_errors=True)
-            for sub in ("count", "plan", "scr"):
+            for sub in ("count", "plan", "scr") + (("prog",) if sq.get("prog") else ()):
                 os.makedirs(os.path.join(d, sub))
             item = os.path.join(d, "item.sh")
             open(item, "w").write(ITEM_SH.replace("@DIR@", d))
             shape = sq.get("shape", "n")
+            rf = sq.get("rf", "tuple")
+            RF = {"tuple": ("o.txt",), "list": ["o.txt"], "none": None}[rf]
+            single = Job(return_files=RF).prep(prep)
+            single.post(post_molecule)
+            item_job = Job(return_files=RF).prep(prep)
+            item_job.post(post_payload)
+            vectorised = Job.vectorize(item_job)
+            vectorised.reduce(reduce_ens)
+            Driver = type("Driver", (), {"executable": "sh", "nprocs": 1, "envars": None, "j": single, "jv": vectorised})
             for nm, pl in sq["plans"].items():
                 open(os.path.join(d, "plan", nm), "w").write("".join("/".join(steps_of(x, shape)) + "\n" for x in pl))
             vec = sq["vec"]
             Lib = ml.ConformerLibrary if vec else ml.MoleculeLibrary
             ext = ".clib" if vec else ".mlib"
             src = Lib(os.path.join(d, "src" + ext), readonly=False)
-            dst = Lib(os.path.join(d, "dst" + ext), readonly=False)
+            dpath = os.path.join(d, "dst" + ext)
+            dst = Lib(dpath, readonly=False)
+            nput = [0]
 
-            def mkobj(key, L, done):
-                m = ml.Molecule(["C"], coords=[[0, 0, 0]], name=key)
-                if vec:
-                    m = ml.ConformerEnsemble(m, n_conformers=L)
-                if done is not None:
-                    m.attrib["done"] = [f"ok:{key}:{a}:{n}" for a, n in done]
-                return m
-            Ls = dict(sq["src"])
+            def store(entries, via):
+                # through the handle jobmap is given / through ANOTHER handle / by ANOTHER PROCESS (the handle given to
+                # jobmap then holds a key view that is out of date)
+                if via == "same":
+                    with dst.writing():
+                        for key, v in entries.items():
+                            dst[key] = mkobj(ml, vec, key, len(v), v)
+                elif via == "other":
+                    h = Lib(dpath, readonly=False)
+                    with h.writing():
+                        for key, v in entries.items():
+                            h[key] = mkobj(ml, vec, key, len(v), v)
+                    del h
+                else:
+                    nput[0] += 1
+                    fn = os.path.join(d, f"put{nput[0]}.json")
+                    json.dump({"path": dpath, "vec": vec, "entries": entries}, open(fn, "w"))
+                    subprocess.run([sys.executable, os.path.abspath(__file__), "--put", fn], check=True, timeout=300,
+                                   stdout=subprocess.DEVNULL, stderr=subprocess.PIPE)
             with src.writing():
                 for key, L in sq["src"]:
-                    src[key] = mkobj(key, L, None)
+                    src[key] = mkobj(ml, vec, key, L, None)
             if sq["init"]:
-                with dst.writing():
-                    for key, v in sq["init"].items():
-                        dst[key] = mkobj(key, len(v), v)
+                store(sq["init"], sq.get("init_via", "same"))
             drv = Driver()
             job = drv.jv if vec else drv.j
-            # input hash -> argument it was prepared with
+            # input hash -> argument it was prepared with; the hash must survive the file the runner reads the input from
             h2a = {}
             carrier = sq.get("carrier", "cmd")
+            kwargs = {"item": item, "carrier": carrier, "shape": shape, "prog": bool(sq.get("prog"))}
             with src.reading():
                 for key, L in sq["src"]:
                     for a in ("A", "B"):
-                        pr = job.prepare(src[key], arg=a, item=item, carrier=carrier, shape=shape)
+                        pr = job.prepare(src[key], arg=a, **kwargs)
                         for inp in (list(pr) if vec else [pr]):
                             if h2a.get(bytes(inp.hash), a) != a:
                                 res.setdefault("hash_collisions", []).append([inp.jid, carrier])
                             h2a[bytes(inp.hash)] = a
+                            if a == "A":
+                                fn = os.path.join(d, "roundtrip.inp")
+                                inp.dump(fn)
+                                if bytes(JobInput.load(fn).hash) != bytes(inp.hash):
+                                    res.setdefault("hash_unstable", []).append([inp.jid, rf, carrier])
             cache = os.path.join(d, "cache")
             ndst = 0
 
             def observe(raised):
-                with dst.reading():
-                    dd = {k: [parse(x) for x in dst[k].attrib["done"]] for k in sorted(dst.keys())}
+                chk = Lib(dpath, readonly=True)         # an independent handle: the one given to jobmap is left as it is
+                with chk.reading():
+                    dd = {k: [parse(x) for x in chk[k].attrib["done"]] for k in sorted(chk.keys())}
+                del chk
                 cn = {fn: len(open(os.path.join(d, "count", fn)).read().split()) for fn in sorted(os.listdir(os.path.join(d, "count")))}
                 cc = {}
                 od = os.path.join(cache, "output")
@@ -318,33 +472,45 @@ def worker_main(jobs_fn, res_fn):
                         if "o.txt" in (o.files or {}):
                             att.append(parse(o.files["o.txt"].decode())[1])
                         att = sorted(set(att)) or [cn.get(fn[:-4], 0) - 1]
-                        cc[fn[:-4]] = [h2a.get(bytes(o.input_hash), "?"), int(o.exitcode), "o.txt" in (o.files or {}),
+                        have = ("c0" in (o.stdouts or {})) if RF is None else ("o.txt" in (o.files or {}))
+                        cc[fn[:-4]] = [h2a.get(bytes(o.input_hash), "?"), int(o.exitcode), have,
                                        att[0] if len(att) == 1 else 1000 + att[-1]]
                     except Exception:
                         cc[fn[:-4]] = None
                 return {"dst": dd, "cache": cc, "count": cn, "raised": raised}
-            for ev in sq["events"]:
+            for ei, ev in enumerate(sq["events"]):
                 raised = None
                 if ev[0] == "run":
+                    if len(ev) > 4 and ev[4] == "fresh":      # handles that have never looked at their files
+                        dst = Lib(dpath, readonly=False)
+                        src = Lib(os.path.join(d, "src" + ext), readonly=False)
                     try:
                         jobmap(job, src, dst, cache_dir=cache, scratch_dir=os.path.join(d, "scr"), n_workers=4,
-                               kwargs={"arg": ev[1], "item": item, "carrier": carrier, "shape": shape}, strict_hash=ev[2], log_level="critical")
+                               kwargs=dict(kwargs, arg=ev[1]), strict_hash=ev[2], log_level="critical")
                     except Exception as e:
                         raised = f"{type(e).__name__}: {e}"[:300]
                 elif ev[0] == "corrupt":
                     os.makedirs(os.path.join(cache, "output"), exist_ok=True)
                     open(os.path.join(cache, "output", ev[1] + ".out"), "wb").write(b"\xc1 damaged \xc1")
                 elif ev[0] == "put":
-                    with dst.writing():
-                        dst[ev[1]] = mkobj(ev[1], len(ev[2]), ev[2])
+                    chk = Lib(dpath, readonly=True)
+                    with chk.reading():
+                        there = [parse(x) for x in chk[ev[1]].attrib["done"]] if ev[1] in chk.keys() else None
+                    del chk
+                    if there is None:
+                        store({ev[1]: ev[2]}, ev[3] if len(ev) > 3 else "same")
+                    else:                                   # the key is taken (a library refuses a second put): nothing happens
+                        res.setdefault("effective", {})[str(ei)] = there
                 elif ev[0] == "newdst":
                     ndst += 1
-                    dst = Lib(os.path.join(d, f"dst{ndst}" + ext), readonly=False)
+                    dpath = os.path.join(d, f"dst{ndst}" + ext)
+                    dst = Lib(dpath, readonly=False)
                 res["obs"].append(observe(raised))
             res["residue"] = sorted(os.listdir(os.path.join(d, "scr")))
         except Exception:
             res["error"] = traceback.format_exc()[-2000:]
         shutil.rmtree(d, ignore_errors=True)
+        res["secs"] = round(time.time() - t_start, 1)
         results.append(res)
     json.dump(results, open(res_fn, "w"))
 
@@ -354,8 +520,17 @@ def execute(ctx, seqs, tag):
     nw = min(14, len(seqs))
     procs = []
     env = dict(os.environ)
+    # longest first, each to the least loaded worker (cost ~ work items that may be executed + processes started for puts)
+    def cost(sq):
+        n = sum(L if sq["vec"] else 1 for _, L in sq["src"])
+        return n * sum(1 for e in sq["events"] if e[0] == "run") + 2 * sum(1 for e in sq["events"] if e[0] == "put" and e[-1] == "process")
+    share = [[0, []] for _ in range(nw)]
+    for i in sorted(range(len(seqs)), key=lambda i: -cost(seqs[i])):
+        tgt = min(share, key=lambda x: x[0])
+        tgt[0] += cost(seqs[i]) + 1
+        tgt[1].append(i)
     for w in range(nw):
-        mine = list(range(w, len(seqs), nw))
+        mine = share[w][1]
         jf, rf = os.path.join(work, f"jobs{w}.json"), os.path.join(work, f"res{w}.json")
         json.dump([dict(seqs[i], dir=os.path.join(work, f"seq{i}")) for i in mine], open(jf, "w"))
         procs.append((subprocess.Popen([vlib.PY, os.path.abspath(__file__), "--worker", jf, rf], env=env,
@@ -385,11 +560,14 @@ def cq_value(v):
     return "[" + "; ".join(f"({cq_s(a)}, {int(n)}%N)" for a, n in v) + "]"
 
 
-def cq_steps(tok, shape):
+def cq_steps(tok, shape, rf="tuple"):
     out = []
-    for st, ch in zip(steps_of(tok, shape), shape):
-        code = f"(Some {int(st[1:])}%positive)" if st[0] in "fg" else "None"
-        out.append(f"mk_cs {'true' if ch == 'n' else 'false'} {'true' if st[0] in 'wg' else 'false'} {code}")
+    for i, (st, ch) in enumerate(zip(steps_of(tok, shape), shape)):
+        code = (f"(Some (Exit {int(st[1:])}%positive))" if st[0] in "fg" else f"(Some (Signal {int(st[1:])}%positive))" if st[0] in "kh"
+                else "(Some (Exit 1%positive))" if st[0] in "xm" else "None")
+        # the result carrier: the return file; for return_files=None the recorded stdout of the first command
+        wr = (i == 0) if rf == "none" else st[0] in "wgh"
+        out.append(f"mk_cs {'true' if ch == 'n' else 'false'} {'true' if wr else 'false'} {code} {'true' if st[0] in 'xm' else 'false'}")
     return "[" + "; ".join(out) + "]"
 
 
@@ -413,11 +591,17 @@ def cq_obs(o):
 
 
 def cq_jcase(sq, res):
-    shape = sq.get("shape", "n")
-    plans = "[" + "; ".join(f"({cq_s(nm)}, [{'; '.join(cq_steps(x, shape) for x in pl)}])" for nm, pl in sq["plans"].items()) + "]"
+    shape, rf = sq.get("shape", "n"), sq.get("rf", "tuple")
+    if rf == "none":
+        # beyond the plan an execution succeeds: with the stdout of the first command as the carrier that needs no entry;
+        # a planned execution gets its carrier from the first command
+        assert shape[0] == "n"
+    plans = "[" + "; ".join(f"({cq_s(nm)}, [{'; '.join(cq_steps(x, shape, rf) for x in pl)}])" for nm, pl in sq["plans"].items()) + "]"
     src = "[" + "; ".join(f"({cq_s(k)}, {L}%nat)" for k, L in sq["src"]) + "]"
     dst = "[" + "; ".join(f"({cq_s(k)}, {cq_value(v)})" for k, v in sq["init"].items()) + "]"
-    return (f"(mk_jcase {plans} (mk_js {src} {dst} [] []) [{'; '.join(cq_event(e) for e in sq['events'])}] "
+    eff = res.get("effective", {})
+    evs = [cq_event(e if str(i) not in eff else [e[0], e[1], eff[str(i)]]) for i, e in enumerate(sq["events"])]
+    return (f"(mk_jcase {plans} (mk_js {src} {dst} [] []) [{'; '.join(evs)}] "
             f"[{'; '.join(cq_obs(o) for o in res['obs'])}])")
 
 
@@ -427,49 +611,74 @@ def judge(sq, res):
     vec = sq["vec"]
     src = dict((k, L) for k, L in sq["src"])
     prev = {"dst": {k: [list(x) for x in val] for k, val in sq["init"].items()}, "cache": {}, "count": {}}
-    shape = sq.get("shape", "n")
-    # what the LATEST execution of every (sub-)item did, by the script alone (not by what the runner recorded):
-    # name -> (argument, attempt, steps); None once the cached file was damaged from outside
+    shape, rf = sq.get("shape", "n"), sq.get("rf", "tuple")
+    # what the LATEST execution that left an output did, for every (sub-)item, by the script alone (not by what the runner
+    # recorded): name -> (argument, attempt, steps); None once the cached file was damaged from outside
     latest = {}
 
     def cmds_ok(t):
-        return outcome_of(t[2])[:2] == (0, True)
+        return outcome_of(t[2], rf)[:2] == (0, True)
+
+    def script(nm, n):
+        pl = sq["plans"].get(nm, [])
+        return steps_of(pl[n] if n < len(pl) else "S", shape)
     for jid, carrier in res.get("hash_collisions", []):
         v.append((f"C18:hash:different-inputs-same-hash:{carrier}", f"the JobInputs prepared for {jid} with arguments A and B "
                   f"(argument carried by: {carrier}) have the same hash: a cached output of one is taken for the other's"))
-    if res.get("residue"):
-        v.append(("C18:scratch-residue", f"scratch directory not empty after the runs: {res['residue']}"))
+    for jid, rfk, carrier in res.get("hash_unstable", []):
+        v.append((f"C18:hash:changes-across-dump-load:return_files={rfk}", f"the JobInput prepared for {jid} (return_files: {rfk}, argument "
+                  f"carried by: {carrier}) has another hash after dump() + load(): the hash the runner records is never the one jobmap expects"))
+    # a runner that was killed cannot remove its private directory; every other execution must
+    killed = {nm for nm, cnt in (res["obs"][-1]["count"] if res["obs"] else {}).items()
+              if any(outcome_of(script(nm, n), rf)[0] == CRASH and "x" in script(nm, n) for n in range(cnt))}
+    residue = [x for x in res.get("residue") or [] if x.split("__")[0] not in killed]
+    if residue:
+        v.append(("C18:scratch-residue", f"scratch directory not empty after the runs: {residue}"))
     for ev, o in zip(sq["events"], res["obs"]):
         if ev[0] != "run":
             if ev[0] == "corrupt":
                 latest[ev[1]] = None
             prev = o
             continue
-        _, arg, strict, _ = ev
-        tag = "vectorised" if vec else "single"
+        arg, strict = ev[1], ev[2]
+        how = ev[4] if len(ev) > 4 else "same"
+        tag = ("vectorised" if vec else "single") + f", {how} handle"
         if o["raised"]:
             v.append((f"C18:jobmap-raised:{o['raised'].split(':')[0]}", f"jobmap raised {o['raised']} ({tag}, destination keys {sorted(prev['dst'])}, source {sorted(src)})"))
 
         def is_valid(c):
             return c is not None and c[1] == 0 and c[2] and (c[0] == arg or not strict)     # same input, success = exit 0 with the return file
+        died = {}                     # sub-items whose runner died in this run -> kind
         for key, L in src.items():
             for nm in names_of(key, L, vec):
                 ex = o["count"].get(nm, 0) - prev["count"].get(nm, 0)
                 c0 = prev["cache"].get(nm, "absent")
                 t0 = latest.get(nm)
                 if not ex and key not in prev["dst"] and t0 is not None and not cmds_ok(t0):
-                    v.append(("C18:failed-run-reused:" + kind_of(t0[2], shape),
+                    v.append(("C18:failed-run-reused:" + kind_of(t0[2], shape, rf),
                               f"{nm} not executed although a command of its latest execution (#{t0[1]}, commands {'/'.join(t0[2])}, "
                               f"named/unnamed {shape}) failed or left no return file; its cached output reads {c0}"))
+                if ex and key not in prev["dst"] and t0 is not None and cmds_ok(t0) and (t0[0] == arg or not strict) and c0 not in ("absent", None):
+                    v.append((f"C18:same-input-success-recomputed:return_files={rf}",
+                              f"{nm} executed again (arg={arg}, strict_hash={strict}, {tag}) although its latest execution (#{t0[1]}, same input "
+                              f"{t0[0]}, commands {'/'.join(t0[2])}) succeeded and its output is in the cache (reads {c0}; '?' = a hash that "
+                              f"no prepared input has)"))
+                n0 = prev["count"].get(nm, 0)
+                want = script(nm, n0)
+                code, have, _ = outcome_of(want, rf)
                 if ex == 1:
-                    n0 = prev["count"].get(nm, 0)
-                    pl0 = sq["plans"].get(nm, [])
-                    latest[nm] = (arg, n0, steps_of(pl0[n0] if n0 < len(pl0) else "S", shape))
+                    if code == CRASH:
+                        died[nm] = kind_of(want, shape, rf)
+                        if o["cache"].get(nm, "absent") == "absent":
+                            latest.pop(nm, None)
+                    else:
+                        latest[nm] = (arg, n0, want)
                 if ex > 1 or ex < 0:
                     v.append(("C18:executed-more-than-once", f"{nm} executed {ex} times in one run"))
                 elif key in prev["dst"]:
                     if ex:
-                        v.append(("C18:destination-key-recomputed", f"{nm} executed although {key} was already in the destination"))
+                        v.append(("C18:destination-key-recomputed", f"{nm} executed although {key} was already in the destination ({tag}; "
+                                  f"destination keys before the run: {sorted(prev['dst'])})"))
                 elif c0 != "absent" and is_valid(c0):
                     if ex:
                         v.append(("C18:valid-cache-recomputed", f"{nm} executed although a cached output of the same input (exit 0) existed: {c0}"))
@@ -479,27 +688,35 @@ def judge(sq, res):
                     elif c0 is None:
                         sig = "C18:damaged-cache-reused"
                     elif c0[1] != 0:
-                        sig = "C18:failed-output-reused"
+                        sig = "C18:failed-output-reused" + (":killed-by-signal" if c0[1] < 0 else "")
                     elif not c0[2]:
                         sig = "C18:incomplete-output-reused"
                     else:
                         sig = "C18:stale-cache-reused"
                     v.append((sig, f"{nm} not executed (arg={arg}, strict_hash={strict}) although its cached output was {c0}"))
                 elif not o["raised"]:
-                    # the output now in the cache must be the one produced by this execution, with the scripted outcome
-                    c1 = o["cache"].get(nm)
-                    n = prev["count"].get(nm, 0)
-                    pl = sq["plans"].get(nm, [])
-                    want = steps_of(pl[n] if n < len(pl) else "S", shape)
-                    code, have, _ = outcome_of(want)
-                    exp = [arg, code, have, n]
-                    if c1 != exp:
-                        v.append(("C18:output-not-from-this-run", f"{nm}: cache holds {c1}, execution #{n} (commands {'/'.join(want)}, "
-                                  f"named/unnamed {shape}) should have left {exp}"))
+                    c1 = o["cache"].get(nm, "absent")
+                    if code == CRASH:
+                        # the runner died: no new output; the old one (unsuitable, or it would not have been executed) is gone or untouched
+                        # (compared without the attempt field, which the harness may have had to fill in from the counters)
+                        if c1 != "absent" and (c1 is None or c0 in ("absent", None) or c1[:3] != c0[:3]):
+                            v.append(("C18:output-not-from-this-run", f"{nm}: cache holds {c1} although the runner of execution #{n0} died "
+                                      f"(commands {'/'.join(want)}); before the run it held {c0}"))
+                    else:
+                        # the output now in the cache must be the one produced by this execution, with the scripted outcome
+                        exp = [arg, code, have, n0]
+                        if c1 != "absent" and c1 is not None and c1[0] == "?" and c1[1:] == exp[1:]:
+                            v.append((f"C18:recorded-hash-is-not-the-prepared-input's:return_files={rf}",
+                                      f"{nm}: the output of execution #{n0} carries an input hash that no input prepared for this item has "
+                                      f"(return_files: {rf}, argument carried by: {sq.get('carrier', 'cmd')}): it can never be recognised as "
+                                      f"the output of the same input"))
+                        elif c1 != exp:
+                            v.append(("C18:output-not-from-this-run", f"{nm}: cache holds {c1}, execution #{n0} (commands {'/'.join(want)}, "
+                                      f"named/unnamed {shape}) should have left {exp}"))
         for k, val in prev["dst"].items():
             if o["dst"].get(k) != val:
                 v.append(("C18:destination-entry-changed" if k in src else "C18:destination-only-key-touched",
-                          f"destination[{k}] was {val}, now {o['dst'].get(k)}"))
+                          f"destination[{k}] was {val}, now {o['dst'].get(k)} ({tag})"))
         for k in o["dst"]:
             if k not in prev["dst"] and k not in src:
                 v.append(("C18:foreign-key-in-destination", f"{k} appeared in the destination"))
@@ -507,37 +724,53 @@ def judge(sq, res):
         for key, L in src.items():
             if key in prev["dst"]:
                 continue
-            ts = [latest.get(nm) for nm in names_of(key, L, vec)]
+            nms = names_of(key, L, vec)
+            dead = [nm for nm in nms if nm in died]
+            if dead:
+                if key in o["dst"]:
+                    v.append(("C18:stale-output-stored-after-runner-crash",
+                              f"destination[{key}] = {o['dst'][key]} (arg={arg}, strict_hash={strict}) although the runner of {dead[0]} died before "
+                              f"writing an output ({died[dead[0]]}): what was stored for it is the cached output of an EARLIER execution, "
+                              f"which read {prev['cache'].get(dead[0], 'absent')} (another input, or a failed run)"))
+                continue
+            ts = [latest.get(nm) for nm in nms]
             if any(t is None for t in ts):
                 continue                       # a damaged file that was not recomputed: judged above
             bad_t = [t for t in ts if not cmds_ok(t)]
             if key in o["dst"]:
                 if bad_t:
                     t = bad_t[0]
-                    v.append(("C18:item-with-failed-command-stored:" + kind_of(t[2], shape),
+                    v.append(("C18:item-with-failed-command-stored:" + kind_of(t[2], shape, rf),
                               f"destination[{key}] = {o['dst'][key]} although execution #{t[1]} of "
-                              f"{names_of(key, L, vec)[ts.index(t)]} (commands {'/'.join(t[2])}, named/unnamed {shape}) did not succeed"))
+                              f"{nms[ts.index(t)]} (commands {'/'.join(t[2])}, named/unnamed {shape}) did not succeed"))
                 elif o["dst"][key] != [[t[0], t[1]] for t in ts]:
                     v.append(("C18:result-not-of-the-successful-executions",
                               f"destination[{key}] = {o['dst'][key]}, the successful executions were {[[t[0], t[1]] for t in ts]}"))
-            elif not bad_t and not o["raised"]:
+            elif not bad_t and not o["raised"] and all(t[0] == arg or not strict for t in ts):
                 v.append(("C18:successful-commands-item-missing", f"{key}: every command of the latest executions "
                           f"{[[t[0], t[1], '/'.join(t[2])] for t in ts]} succeeded and wrote the return file, but the destination has no entry"))
         if not o["raised"]:
             for key, L in src.items():
                 if key in prev["dst"]:
                     continue
-                outs = [o["cache"].get(nm) for nm in names_of(key, L, vec)]
+                nms = names_of(key, L, vec)
+                outs = [o["cache"].get(nm) for nm in nms]
                 succeeded = all(c is not None and c[1] == 0 for c in outs)
-                if succeeded and all(c[2] for c in outs):
+                complete = succeeded and all(c[2] for c in outs)
+                mine = complete and all(c[0] in (arg, "?") or not strict for c in outs)      # "?": judged by the recorded-hash clause
+                if mine:
                     want = [[c[0], c[3]] for c in outs]
                     if key not in o["dst"]:
                         v.append(("C18:successful-item-missing", f"{key}: every command succeeded ({outs}) but the destination has no entry"))
                     elif o["dst"][key] != want:
                         v.append(("C18:wrong-result", f"destination[{key}] = {o['dst'][key]}, processed outputs are {want}"))
-                elif key in o["dst"]:
-                    v.append(("C18:failed-item-in-destination", f"{key}: outputs {outs} (a command failed or a return file is missing) but the "
-                              f"destination holds {o['dst'][key]}"))
+                elif key in o["dst"] and not any(nm in died for nm in nms):
+                    if complete:
+                        v.append(("C18:output-of-another-input-stored", f"{key}: outputs {outs} belong to another input than the one mapped "
+                                  f"(arg={arg}, strict_hash) but the destination holds {o['dst'][key]}"))
+                    else:
+                        v.append(("C18:failed-item-in-destination", f"{key}: outputs {outs} (a command failed or a return file is missing) but the "
+                                  f"destination holds {o['dst'][key]}"))
         prev = o
     return v
 
@@ -548,9 +781,13 @@ def run(ctx, rep):
                 "outcome streams (succeed / fail / fail after writing the return file / omit the return file, by attempt), jobs of "
                 "1..3 commands each named or unnamed with the failing command at every position and the return file written "
                 "before / by / after it / never, argument and strict_hash changes, pre-populated destinations, destination-only keys, damaged cache files, "
-                "single (MoleculeLibrary) and vectorised (ConformerLibrary, 1..3 conformers) jobs; 21 directed sequences (7 of them "
-                "over multi-command jobs: every failure position x return-file position, single and vectorised) + seeded "
-                "random ones; non-trivial = at least one item executed; distinct by the case term")
+                "single (MoleculeLibrary) and vectorised (ConformerLibrary, 1..3 conformers) jobs; commands killed by a signal "
+                "before / after writing the return file; the runner itself dying (killed while a command runs / program of a "
+                "command missing) at every command position; return_files a tuple / a list / None; destination filled through "
+                "the handle given to jobmap / another handle / another process and handed to jobmap as the same or a fresh "
+                "handle, observed through an independent read-only handle; 40 directed sequences (7 over multi-command jobs: "
+                "every failure position x return-file position; 19 of round 3: handles, signals, return_files, dying runners) "
+                "+ seeded random ones over all dimensions; non-trivial = at least one item executed; distinct by the case term")
     rep.trusted += ["harness/c18.py (item.sh script, worker, hash->argument table, Coq literal emission)",
                     "CPython ThreadPoolExecutor/subprocess, /bin/sh, msgpack, the UKV library files (C02..C04)"]
     rep.assumptions += ["work items are independent (own scratch directory, own counter): the model executes them in sequence",
@@ -561,10 +798,18 @@ def run(ctx, rep):
                         "source keys contain no '.', vectorised items have < 10 sub-items (cache file names <key>.<i>.out)",
                         "the post function needs the return file (raises without it), as every shipped driver's does",
                         "an output that carries neither a recorded stdout nor the return file (only unnamed commands ran) is "
-                        "attributed to the item's latest execution (harness fill-in for the attempt field only)"]
+                        "attributed to the item's latest execution (harness fill-in for the attempt field only)",
+                        "a job with return_files=None takes its result from the recorded stdout of its first command, which is named",
+                        "a runner dies only while one of its commands runs (kill -9 of the _molli_run process by that command) or "
+                        "because the program of a command other than the first does not exist",
+                        "the key view of a Collection handle is modelled only as far as jobmap uses it (todo_seen); the libraries "
+                        "themselves are C02..C06's"]
     ok, out, where = vlib.build_props(ctx, rep, "C18")
     seqs = directed_sequences() + [gen_sequence(ctx.rng, k) for k in range(200 if ctx.thorough else 16)]
+    t0 = time.time()
     results = execute(ctx, seqs, "q")
+    rep.extra["seconds"] = {"jobmap-runs-wall": round(time.time() - t0, 1), "per-sequence-sum": round(sum(r.get("secs", 0) for r in results), 1),
+                            "slowest": sorted(((r.get("secs", 0), sq["note"]) for sq, r in zip(seqs, results)), reverse=True)[:5]}
     terms, known_hit = [], set()
     known = {k["signature"] for k in vlib.load_known() if k["property"] == "C18" and k.get("status") == "known"}
     for i, (sq, r) in enumerate(zip(seqs, results)):
@@ -576,13 +821,27 @@ def run(ctx, rep):
         rep.case(key=t if nexec else None, sample={"note": sq["note"], "events": sq["events"], "final": r["obs"][-1]} if i % 13 == 2 else None)
         rep.count("job:" + ("vectorised" if sq["vec"] else "single"))
         rep.count("argument-carried-by:" + sq.get("carrier", "cmd"))
-        shape = sq.get("shape", "n")
+        shape, rf = sq.get("shape", "n"), sq.get("rf", "tuple")
         rep.count("commands(named/unnamed):" + shape)
+        rep.count("return_files:" + rf)
+        if sq["init"]:
+            rep.count("destination-prefilled-through:" + {"same": "the-handle-given-to-jobmap", "other": "another-handle", "process": "another-process"}[sq.get("init_via", "same")])
+        dkeys = set(sq["init"])
+        for e in sq["events"]:
+            if e[0] == "run":
+                rep.count("run:" + (e[4] if len(e) > 4 else "same") + "-handle:" + ("destination-holds-keys" if dkeys else "destination-empty"))
+                dkeys.add("?")
+            elif e[0] == "put":
+                rep.count("put-between-runs-through:" + {"same": "the-handle-given-to-jobmap", "other": "another-handle", "process": "another-process"}[e[3] if len(e) > 3 else "same"]
+                          + (":source-key" if e[1] in dict(sq["src"]) else ":foreign-key"))
+                dkeys.add(e[1])
+            elif e[0] == "newdst":
+                dkeys = set()
         if r["obs"]:
             for nm, cnt in r["obs"][-1]["count"].items():        # every execution that really took place, by what its script did
                 pl = sq["plans"].get(nm, [])
                 for n in range(cnt):
-                    rep.count("execution:" + kind_of(steps_of(pl[n] if n < len(pl) else "S", shape), shape))
+                    rep.count("execution:" + kind_of(steps_of(pl[n] if n < len(pl) else "S", shape), shape, rf))
         rep.count("runs", sum(1 for e in sq["events"] if e[0] == "run"))
         rep.count("executions", nexec)
         for sig, text in judge(sq, r):
@@ -614,3 +873,5 @@ def replay(ctx, data):
 if __name__ == "__main__":
     if len(sys.argv) == 4 and sys.argv[1] == "--worker":
         worker_main(sys.argv[2], sys.argv[3])
+    elif len(sys.argv) == 3 and sys.argv[1] == "--put":
+        put_main(sys.argv[2])
